@@ -430,18 +430,63 @@ func IWrap(a *Term, bits int, signed bool) *Term {
 // (same symbolic base, constant offsets): select(store(a, b+1, v), b+1) = v, select(store(a, b+1, v), b+3) = select(a, b+3).
 func Select(a, i *Term) *Term {
 	ib, io, iok := linIdx(i, 0)
-	for iok {
+	// does the chain of stores end in an array that extends an older one (ArrayPrefix)? Then every step that
+	// cannot be decided syntactically is unfolded into an if-then-else, so that the read reaches the old array
+	// without the solver needing a quantified frame fact.
+	extended := false
+	for b, n := a, 0; n < 4096; n++ {
+		if b.Op == "sym" {
+			if d, ok := CurDefs[b.Name]; ok {
+				b = d
+				continue
+			}
+			_, extended = ArrayPrefix[b.Name]
+			break
+		}
+		if b.Op != "store" {
+			break
+		}
+		b = b.Args[0]
+	}
+	for iok || extended {
 		arr := a
 		if arr.Op == "sym" {
 			if d, ok := CurDefs[arr.Name]; ok {
 				arr = d
 			}
 		}
+		if arr.Op == "sym" {
+			// an array known to extend another one (a callee appended to a slice): reads below the old length
+			// are reads of the old array
+			if pf, ok := ArrayPrefix[arr.Name]; ok {
+				if iok && idxBelow(ib, io, pf.Len, i.S) {
+					a = pf.Old
+					continue
+				}
+				var below *Term
+				if i.S.K == SBV {
+					below = BVCmp("bvult", i, pf.Len)
+				} else {
+					below = And(IGe(i, IntC(0)), ILt(i, pf.Len))
+				}
+				return Ite(below, Select(pf.Old, i), App("select", *arr.S.Elem, arr, i))
+			}
+			break
+		}
 		if arr.Op != "store" {
 			break
 		}
 		sb, so, sok := linIdx(arr.Args[1], 0)
-		if !sok || sb != ib {
+		if iok && sok && sb != ib && idxBelow(ib, io, arr.Args[1], i.S) {
+			// a store at a position known to lie above the index read (it appends to a slice that extends the
+			// array the index belongs to)
+			a = arr.Args[0]
+			continue
+		}
+		if !iok || !sok || sb != ib {
+			if extended {
+				return Ite(Eq(i, arr.Args[1]), arr.Args[2], Select(arr.Args[0], i))
+			}
 			break
 		}
 		if so.Cmp(io) == 0 {
@@ -454,6 +499,41 @@ func Select(a, i *Term) *Term {
 
 // CurDefs: named definitions of the function currently being processed (VC generation is sequential).
 var CurDefs = map[string]*Term{}
+
+// ArrayPrefix: arrays (fresh symbols) known to agree with an older array on all indices below Len (the absolute
+// index where the old slice ended); the corresponding quantified fact is among the path's assumptions as well.
+type arrayPrefix struct{ Old, Len *Term }
+
+var ArrayPrefix = map[string]arrayPrefix{}
+
+// BaseLowerBound: index terms whose symbolic base (as computed by linIdx) is known to be at least the given term
+// (the end of a slice that was extended: off + newLen >= off + oldLen). Reset per function with ArrayPrefix.
+var BaseLowerBound = map[string]*Term{}
+
+// idxBelow: is the index (base ib, offset io) provably below term t? Decided syntactically: same base and smaller
+// offset, or t's base has a registered lower bound below which the index lies (transitively). Offsets are small
+// non-negative constants and slice positions stay below 2^62, so no wrap-around is involved.
+func idxBelow(ib string, io *big.Int, t *Term, s Sort) bool {
+	limit := Pow2(40)
+	if io.Sign() < 0 || io.Cmp(limit) > 0 {
+		return false
+	}
+	for depth := 0; depth < 12; depth++ {
+		tb, to, ok := linIdx(t, 0)
+		if !ok || to.Sign() < 0 || to.Cmp(limit) > 0 {
+			return false
+		}
+		if tb == ib {
+			return io.Cmp(to) < 0
+		}
+		lb, have := BaseLowerBound[tb]
+		if !have {
+			return false
+		}
+		t = lb // t = base + to >= lb + to >= lb
+	}
+	return false
+}
 
 // linIdx decomposes an index term into a symbolic base and a constant offset.
 func linIdx(t *Term, depth int) (string, *big.Int, bool) {
